@@ -1,6 +1,6 @@
 (* C05 model runner: one case per line on stdin, one result per line on stdout.
    Common tokens
-     <script>  comma separated  D<hex> | Z | F   ("-" = empty script)
+     <script>  comma separated  D<hex> | Z | F | E   ("-" = empty script)
      <hashes>  comma separated  <alghex>:<len>:<fnv>:<djb>:<hexdigest>  ("-" = none): the
                SHA-2 values of the byte strings the model may ask for (ground truth
                of the harness; SHA-2 itself is not modelled)
@@ -22,13 +22,13 @@ let err_name e = match e with
   | EEof -> "EOF" | EInjected -> "INJECTED" | EUnexpEof -> "UNEXPECTED_EOF" | EBadDigest -> "BAD_DIGEST"
   | ETrailing -> "TRAILING" | EMismatch -> "MISMATCH" | EEarly -> "EARLY" | EInvalidSize -> "INVALID_SIZE"
   | EExists -> "EXISTS" | ETooBig -> "TOO_BIG" | ENotFound -> "NOT_FOUND" | EDupName -> "DUP_NAME"
-  | EFuel -> "FUEL"
+  | EOverwrite -> "OVERWRITE" | EFuel -> "FUEL" | EWrite -> "WRITE" | EShortWrite -> "SHORT_WRITE" | ETraversal -> "TRAVERSAL"
 let res_name e = match e with None -> "OK" | Some e -> err_name e
 
 let parse_script (s : string) : ev list =
   if s = "-" then [] else
   List.map (fun t ->
-    if t = "Z" then Zero else if t = "F" then Fail
+    if t = "Z" then Zero else if t = "F" then Fail else if t = "E" then Eof
     else if String.length t >= 1 && t.[0] = 'D' then
       Data (str_of_hex (let r = String.sub t 1 (String.length t - 1) in if r = "" then "-" else r))
     else failwith ("bad script token " ^ t)) (String.split_on_char ',' s)
@@ -68,10 +68,19 @@ let () =
           (str_of_hex dg) (z_of_int (int_of_string sz)) in
       let delivered = total evs - total v.v_base.b_evs in
       Printf.printf "%s %s %d W%s\n" id (res_name e) delivered (digest_str out)
-    | [id; "VR"; hs; dg; sz; comb; sc; ops] ->
+    | [id; "CW"; hs; bufsz; dg; sz; comb; lim; sc; wmode; wat] ->
+      (* CopyBuffer into a destination that fails / short-writes after <wat> bytes *)
+      let h = mk_h (parse_hashes hs) and evs = parse_script sc and comb = (comb = "1") in
+      let w = { w_mode = Some (if wmode = "short" then WShort else WFail); w_left = nat_of_int (int_of_string wat) } in
+      let (((e, out), v), _) = copy_buffer_w h comb fixed (fuel_of evs) (base_of evs lim) (nat_of_int (int_of_string bufsz))
+          (str_of_hex dg) (z_of_int (int_of_string sz)) w in
+      let delivered = total evs - total v.v_base.b_evs in
+      Printf.printf "%s %s %d W%s\n" id (res_name e) delivered (digest_str out)
+    | id :: "VR" :: hs :: dg :: sz :: comb :: sc :: ops :: limopt when List.length limopt <= 1 ->
+      let lim = (match limopt with [l] -> l | _ -> "-") in
       let h = mk_h (parse_hashes hs) and evs = parse_script sc and comb = (comb = "1") in
       let dg = str_of_hex dg in
-      let v = ref (new_vr fixed (base_of evs "-") dg (z_of_int (int_of_string sz))) in
+      let v = ref (new_vr fixed (base_of evs lim) dg (z_of_int (int_of_string sz))) in
       let outs = List.map (fun op ->
         if op = "v" then begin
           let (e, v') = vr_verify h comb (fuel_of evs) dg !v in
@@ -86,13 +95,7 @@ let () =
       let h = mk_h (parse_hashes hs) in
       let n = int_of_string n in
       let buf = Buffer.create 256 in
-      let fetch_obs (content : n list option) dg sz =
-        match content with
-        | None -> "NOT_FOUND"
-        | Some c ->
-          let evs = [Data c] in
-          let ((e, b), _) = read_all h false fixed (fuel_of evs) (base_of evs "-") dg sz in
-          (match e with None -> "OK/" ^ digest_str b | Some e -> err_name e) in
+      let show_fetch (e, b) = match e with None -> "OK/" ^ digest_str b | Some e -> err_name e in
       let seen = ref [] in
       (* final sweep: every descriptor of the history is queried again on the final state *)
       let sweep (observe : n list -> desc -> string) =
@@ -112,6 +115,8 @@ let () =
           pushes (i - 1) rest' step
         | _ -> failwith "bad ST case" in
       let listing l = match List.sort compare l with [] -> "-" | l -> String.concat ";" l in
+      let nolist = (kind = "memstore") in
+      let kind = if kind = "memstore" then "mem" else if kind = "ocistore" then "oci" else kind in
       (if kind = "mem" || (String.length kind > 3 && String.sub kind 0 3 = "lim") then begin
         let st = ref [] in
         pushes n rest (fun _ d comb evs ->
@@ -121,11 +126,11 @@ let () =
                 (z_of_int (int_of_string (String.sub kind 3 (String.length kind - 3)))) !st d evs in
           st := st';
           let c = mem_get !st d in
-          Printf.sprintf "%s X%d F%s" (res_name e) (if c = None then 0 else 1) (fetch_obs c d.d_dg d.d_sz));
-        Buffer.add_string buf ("B=" ^ listing (List.map (fun (d, c) ->
+          Printf.sprintf "%s X%d F%s" (res_name e) (if c = None then 0 else 1) (show_fetch (mem_fetch_all h !st d)));
+        Buffer.add_string buf (if nolist then "B=?" else "B=" ^ listing (List.map (fun (d, c) ->
           Printf.sprintf "%s/%s/%d/%s" (hex_of_str d.d_mt) (hex_of_str d.d_dg) (int_of_z d.d_sz) (digest_str c)) !st));
         Buffer.add_string buf (sweep (fun _ d -> let c = mem_get !st d in
-          Printf.sprintf "X%d/F%s" (if c = None then 0 else 1) (fetch_obs c d.d_dg d.d_sz)))
+          Printf.sprintf "X%d/F%s" (if c = None then 0 else 1) (show_fetch (mem_fetch_all h !st d))))
       end else if kind = "oci" || (String.length kind > 4 && String.sub kind 0 4 = "olim") then begin
         let st = ref [] in
         pushes n rest (fun _ d comb evs ->
@@ -136,28 +141,40 @@ let () =
           st := st';
           let (xe, x) = oci_exists !st d in
           let xs = match xe with Some e -> err_name e | None -> if x then "1" else "0" in
-          let f = if valid_digest d.d_dg then fetch_obs (oci_get !st d.d_dg) d.d_dg d.d_sz else "BAD_DIGEST" in
+          let f = show_fetch (oci_fetch_all h !st d) in
           Printf.sprintf "%s X%s F%s" (res_name e) xs f);
         Buffer.add_string buf ("B=" ^ listing (List.map (fun (dg, c) ->
           Printf.sprintf "%s/%s" (hex_of_str dg) (digest_str c)) !st) ^ " I=0");
         Buffer.add_string buf (sweep (fun _ d ->
           let (xe, x) = oci_exists !st d in
           let xs = match xe with Some e -> err_name e | None -> if x then "1" else "0" in
-          let f = if valid_digest d.d_dg then fetch_obs (oci_get !st d.d_dg) d.d_dg d.d_sz else "BAD_DIGEST" in
+          let f = show_fetch (oci_fetch_all h !st d) in
           Printf.sprintf "X%s/F%s" xs f))
-      end else if kind = "file" then begin
+      end else if String.length kind >= 4 && String.sub kind 0 4 = "file" then begin
+        (* file | fileD (DisableOverwrite) | fileI (IgnoreNoName) | fileF (unlimited fallback) | fileC (ForceCAS) *)
+        let opts = match kind with
+          | "fileD" -> { default_opts with o_disable_overwrite = true }
+          | "fileI" -> { default_opts with o_ignore_noname = true }
+          | "fileF" -> { default_opts with o_fb_limit = None }
+          | _ -> default_opts in
         let st = ref { f_files = []; f_names = []; f_d2p = []; f_fb = [] } in
         pushes n rest (fun name d comb evs ->
           let (name, path) = !cur_name_path in
-          let (e, st') = file_push h comb fixed (fuel_of evs) !st name path d evs in
+          (* the model resolves the name itself (filepath.Clean + traversal check); the
+             harness's filepath.Clean of the name is only compared with it *)
+          let clean_note = match resolve_name name with
+            | Some p when name <> [] && p <> path ->
+              Printf.sprintf " CLEAN-MISMATCH(model=%s,filepath=%s)" (hex_of_str p) (hex_of_str path)
+            | _ -> "" in
+          let (e, st') = file_push_opt h comb fixed opts (fuel_of evs) !st name d evs in
           st := st';
           let x = file_exists !st name d in
-          let f = fetch_obs (file_fetch !st name d) d.d_dg d.d_sz in
-          Printf.sprintf "%s X%d F%s" (res_name e) (if x then 1 else 0) f);
+          let f = show_fetch (file_fetch_all h !st name d) in
+          Printf.sprintf "%s X%d F%s%s" (res_name e) (if x then 1 else 0) f clean_note);
         Buffer.add_string buf ("B=" ^ listing (List.map (fun (nm, c) ->
           Printf.sprintf "%s/%s" (hex_of_str nm) (digest_str c)) !st.f_files));
         Buffer.add_string buf (sweep (fun name d ->
-          Printf.sprintf "X%d/F%s" (if file_exists !st name d then 1 else 0) (fetch_obs (file_fetch !st name d) d.d_dg d.d_sz)))
+          Printf.sprintf "X%d/F%s" (if file_exists !st name d then 1 else 0) (show_fetch (file_fetch_all h !st name d))))
       end else failwith ("bad store kind " ^ kind));
       Printf.printf "%s %s\n" id (Buffer.contents buf)
     | id :: "PF" :: hs :: kind :: n :: rest ->
@@ -183,7 +200,7 @@ let () =
       let l = List.sort compare (List.map (fun (d, c) ->
           Printf.sprintf "%s/%s/%d/%s" (hex_of_str d.d_mt) (hex_of_str d.d_dg) (int_of_z d.d_sz) (digest_str c)) !st) in
       Printf.printf "%s %sB=%s\n" id (Buffer.contents buf) (match l with [] -> "-" | l -> String.concat ";" l)
-    | id :: "CC" :: hs :: "oci" :: n :: rest when int_of_string n <= 3 && List.mem "OBS" rest ->
+    | id :: "CC" :: hs :: ("oci" | "ocistore") :: n :: rest when int_of_string n <= 3 && List.mem "OBS" rest ->
       (* concurrent pushes into one OCI layout: is the observed outcome (per-goroutine results,
          blobs/ listing, files left in ingest/) one of the model's reachable terminal outcomes? *)
       let h = mk_h (parse_hashes hs) in
@@ -230,6 +247,31 @@ let () =
         let rs = List.map (fun r -> match r with Some r -> res_name r | None -> "RUNNING") (mthread_results st) in
         let bl = List.sort compare (List.map (fun (d, c) ->
             Printf.sprintf "%s/%s/%d/%s" (hex_of_str d.d_mt) (hex_of_str d.d_dg) (int_of_z d.d_sz) (digest_str c)) st.ms_mem) in
+        Printf.sprintf "%s %s I=-1" (String.concat "," rs) (match bl with [] -> "-" | l -> String.concat ";" l) in
+      let outs = List.sort_uniq compare (List.map show finals) in
+      if List.mem observed outs then Printf.printf "%s MEMBER\n" id
+      else Printf.printf "%s NOT-REACHABLE observed={%s} model={%s}\n" id observed (String.concat " | " outs)
+    | id :: "CC" :: hs :: "file" :: n :: rest when int_of_string n <= 3 && List.mem "OBS" rest ->
+      (* races of named pushes on one file.Store: outcome membership *)
+      let h = mk_h (parse_hashes hs) in
+      let n = int_of_string n in
+      let rec threads i rest acc =
+        if i = 0 then (List.rev acc, rest) else
+        match rest with
+        | name :: mt :: dg :: sz :: comb :: sc :: rest' ->
+          let nm = match String.index_opt name ':' with
+            | Some j -> str_of_hex (String.sub name 0 j) | None -> str_of_hex name in
+          let d = { d_mt = str_of_hex mt; d_dg = str_of_hex dg; d_sz = z_of_int (int_of_string sz) } in
+          let evs = parse_script sc in
+          threads (i - 1) rest' ({ ft_name = nm; ft_d = d; ft_evs = evs; ft_comb = (comb = "1"); ft_fuel = fuel_of evs; ft_pc = FStart } :: acc)
+        | _ -> failwith "bad CC case" in
+      let (ts, rest') = threads n rest [] in
+      let observed = match rest' with "OBS" :: o -> String.concat " " o | _ -> failwith "bad CC obs" in
+      let finals = explore_f h (nat_of_int (3 * n + 2))
+          { fc_st = { f_files = []; f_names = []; f_d2p = []; f_fb = [] }; fc_thr = ts } in
+      let show st =
+        let rs = List.map (fun r -> match r with Some r -> res_name r | None -> "RUNNING") (fthread_results st) in
+        let bl = List.sort compare (List.map (fun (p, c) -> Printf.sprintf "%s/%s" (hex_of_str p) (digest_str c)) st.fc_st.f_files) in
         Printf.sprintf "%s %s I=-1" (String.concat "," rs) (match bl with [] -> "-" | l -> String.concat ";" l) in
       let outs = List.sort_uniq compare (List.map show finals) in
       if List.mem observed outs then Printf.printf "%s MEMBER\n" id
